@@ -5,6 +5,9 @@
 //!   small  --out f      structured cases: gradient families x boundary elapsed times, all small
 //!                       ordered reward pairs
 //!   random --seed S --n N --out f
+//!   wide --seed S --n N --out f   type-limit tier of the reward: pairs (value, integral) <= (value', integral') over
+//!                       the u128 argument range with raw rewards around and far above 2^64; every number is
+//!                       logged as a BigNum record {s, neg, l} (7 limbs base 2^20) so that TLC compares real values
 //!   unstake --seed S --n N --out f   REAL `unstake_lp` instructions (gmsol_liquidity_provider::entry) on
 //!                       fabricated accounts; the store (GT cumulative factor, GT mint) and the token program
 //!                       (transfer_checked, close_account) are mocked at the CPI boundary and recorded: the
@@ -190,6 +193,90 @@ fn random(args: &Args) -> i32 {
     }
     eprintln!("events {}", sink.finish());
     0
+}
+
+// ---------------------------------------------------------------------------------------------
+// type-limit tier of calculate_gt_reward_amount
+fn bigu(v: u128) -> Value {
+    let mut m = v;
+    let mut l = [0u32; 7];
+    for i in (0..7).rev() {
+        l[i] = (m & 0xF_FFFF) as u32;
+        m >>= 20;
+    }
+    assert!(m == 0);
+    json!({"s": v.to_string(), "neg": false, "l": l})
+}
+
+fn reward_wide(value: u128, d: i64, aps: u128, integral: u128) -> (bool, bool, u64) {
+    match guarded(|| lp::calculate_gt_reward_amount(value, d, aps, integral)) {
+        Ok(Ok(v)) => (false, true, v),
+        Ok(Err(_)) => (false, false, 0),
+        Err(()) => (true, false, 0),
+    }
+}
+
+fn wide_pair(sink: &mut Sink, aps: u128, a1: u128, c1: u128, a2: u128, c2: u128) {
+    let (p1, ok1, r1) = reward_wide(a1, 5, aps, c1);
+    let (p2, ok2, r2) = reward_wide(a2, 5, aps, c2);
+    sink.emit(json!({"op": "reward_pair_wide", "panic": p1 || p2, "d": 5, "b": bigu(aps), "a1": bigu(a1), "c1": bigu(c1), "ok1": ok1,
+                     "r1": bigu(r1 as u128), "a2": bigu(a2), "c2": bigu(c2), "ok2": ok2, "r2": bigu(r2 as u128),
+                     "sat1": ok1 && r1 == u64::MAX, "sat2": ok2 && r2 == u64::MAX}));
+}
+
+/// integral for which floor(floor(value * aps / 10^20) * integral / 10^20) is about k * 2^64
+fn integral_for(value: u128, aps: u128, k: f64) -> Option<u128> {
+    let p = value as f64 * aps as f64 / 1e20;
+    if p < 1.0 {
+        return None;
+    }
+    let c = 18446744073709551616.0 * k * 1e20 / p;
+    if !(1.0..3.0e38).contains(&c) {
+        return None;
+    }
+    Some(c as u128)
+}
+
+fn wide(args: &Args) -> i32 {
+    let n = args.num("n", 600);
+    let mut rng = Rng::new(args.num("seed", 1));
+    let mut sink = Sink::create(&args.str("out", "c38-wide.ndjson"));
+    let pow10 = |e: u64| 10u128.pow(e as u32);
+    // the lead's example shape: a reward of exactly 10^19, then the stake / the integral doubled
+    wide_pair(&mut sink, pow10(12), pow10(27), pow20() , 2 * pow10(27), pow20());
+    wide_pair(&mut sink, pow10(12), pow10(27), pow20(), pow10(27), 2 * pow20());
+    let mut k = 0u64;
+    while (sink.n as u64) < n {
+        k += 1;
+        // stake value 10^18 .. 10^38 (u128, 10^20 = one USD), apy per second 10^9 .. 10^14 (200% a year = 6.3 * 10^12)
+        let value = pow10(rng.range(18, 37) as u64) * (rng.below(9) as u128 + 1) + rng.below(1000) as u128;
+        let aps = pow10(rng.range(9, 13) as u64) * (rng.below(9) as u128 + 1);
+        // raw reward of the smaller call: just below / at / above 2^64, or far above
+        let k1 = *rng.pick(&[0.3f64, 0.6, 0.9, 0.99, 0.999_999, 1.0, 1.000_001, 1.5, 3.0, 1e3, 1e9, 1e15]);
+        let Some(c1) = integral_for(value, aps, k1) else { continue };
+        // the larger call: stake and / or integral grown by a factor
+        let grow = |rng: &mut Rng, x: u128| -> Option<u128> {
+            match rng.below(6) {
+                0 => Some(x),
+                1 => x.checked_add(1),
+                2 => x.checked_mul(2),
+                3 => x.checked_add(x / 100),
+                4 => x.checked_mul(3),
+                _ => x.checked_mul(1000),
+            }
+        };
+        let (Some(a2), Some(c2)) = (grow(&mut rng, value), grow(&mut rng, c1)) else { continue };
+        if k % 11 == 0 {
+            wide_pair(&mut sink, aps, a2, c2, value, c1); // unordered pair: antecedent false unless equal
+        } else {
+            wide_pair(&mut sink, aps, value, c1, a2, c2);
+        }
+    }
+    eprintln!("events {}", sink.finish());
+    0
+}
+fn pow20() -> u128 {
+    100_000_000_000_000_000_000
 }
 
 // ---------------------------------------------------------------------------------------------
@@ -415,6 +502,7 @@ fn main() {
     let code = match mode.as_str() {
         "small" => small(&args),
         "random" => random(&args),
+        "wide" => wide(&args),
         "unstake" => unstake::main(&args),
         _ => 2,
     };
